@@ -241,7 +241,8 @@ public:
     /// \returns Number of elements removed.
     constexpr auto erase(key_type const& key) noexcept -> size_type
     {
-        if (auto* pos = etl::lower_bound(begin(), end(), key); pos != end() && !(key < *pos)) {
+        auto cmp = key_compare{};
+        if (auto* pos = etl::lower_bound(begin(), end(), key, cmp); pos != end() && !cmp(key, *pos)) {
             erase(pos);
             return 1;
         }
